@@ -23,7 +23,8 @@ def offenders(objects):
 def check(ctx):
     ctx.rule = ("every .c file of the working tree compiled with the shipping flags (-O2 -fPIC -fstack-protector-strong -D_FORTIFY_SOURCE=2); "
                 "readelf section headers + symbol table (writable / thread-local storage) and undefined symbols (imports of libc functions that POSIX lists as keeping process-wide hidden state); distinct = object file; non-trivial = file with code or data; "
-                "thorough additionally runs the mixed generate/parse workload in 8 and 16 threads under ThreadSanitizer and compares per-thread digests with the sequential run")
+                "a mixed generate / parse workload in 8 (16) threads with per-thread digests compared with the sequential run, all threads also parsing captures kept in read-only storage (ASan build, every tier); "
+                "thorough additionally runs the workload in 8 and 16 threads under ThreadSanitizer")
     meta, data = fw.run_gen(ctx)
     if meta is None:
         return
@@ -45,11 +46,32 @@ def check(ctx):
                       {"kind": "import", "file": fn, "symbol": sym})
     ctx.oblige("spec-on-impl", "no object file imports a libc function with process-wide hidden state (%d files, %d distinct imports, %d listed functions)" % (len(objs), len({s_ for f in objs for s_ in f.get("imports", [])}), len(shared)), not hits)
     ctx.sample({"file": objs[6]["file"], "objects": objs[6]["objects"], "writable_sections": objs[6]["writable_sections"]})
+    run_threads_plain(ctx)
     if ctx.tier == "thorough":
         run_threads(ctx)
     if broken and not ctx.violations:
         for name, detail in broken[:3]:
             ctx.violation("theorem:" + name, "proof obligation no longer checks: %s — %s" % (name, detail[:300]), {"broken": name, "detail": detail}, found_input=False)
+
+
+def run_threads_plain(ctx):
+    """the threads workload on the ASan build (every tier): per-thread digests of a mixed generate / parse workload equal
+    the sequential ones; all threads also parse captures that live in read-only storage (the library's input is const:
+    a write into it is a write to state every thread shares, and faults here)"""
+    exe, err = diffrun.build_harness("asan")
+    if exe is None:
+        ctx.oblige("harness", "ASan harness builds", False, (err or "")[-500:])
+        ctx.violation("harness:build", "the working tree does not compile into the harness", {"broken": "harness build", "error": (err or "")[-2000:]}, found_input=False)
+        return
+    n, iters = (8, 400) if ctx.tier == "quick" else (16, 3000)
+    line = "threads %d %d %d" % (n, ctx.seed, iters)
+    co, cr = diffrun.run_harness_all(exe, [line], timeout=1800)
+    good = bool(co[0]) and co[0].startswith("threads-ok")
+    ctx.count(n * iters, [("thr-plain", n)])
+    ctx.oblige("correspondence", "S-thr/plain: %d threads x %d iterations, per-thread digests equal the sequential run, shared read-only captures untouched" % (n, iters), good, (co[0] or "")[:300])
+    if not good:
+        ctx.violation("threads-plain:%d" % n, "concurrent use differs from sequential use, or the library wrote into a shared read-only capture: %s" % fw.clip(co[0], 300),
+                      {"kind": "threads-plain", "line": line, "observed": co[0], "stderr": (cr[0][1] if cr else "")[-2000:]})
 
 
 def run_threads(ctx):
@@ -81,6 +103,10 @@ def replay(rp):
         meta, data = genmod.generate()
         still = [f["file"] for f in data["objects"] if f["file"] == rp["file"] and rp["symbol"] in f.get("imports", [])]
         return not still, "%s imports %s: %s" % (rp["file"], rp["symbol"], bool(still))
+    if rp.get("kind") == "threads-plain":
+        exe, err = diffrun.build_harness("asan")
+        co, cr = diffrun.run_harness_all(exe, [rp["line"]], timeout=1800)
+        return bool(co[0]) and co[0].startswith("threads-ok"), (co[0] or "no output")[:300]
     if rp.get("kind") == "threads":
         exe, err = diffrun.build_harness("tsan")
         o, rc, e = diffrun.run_lines(exe, [rp["line"]], env={"TSAN_OPTIONS": "halt_on_error=0:exitcode=66"}, timeout=1800)
